@@ -21,7 +21,7 @@ import (
 func init() {
 	ev.Register(&ev.Spec{
 		ID: "C06", Level: "exploration",
-		Rule:    "(a) reply storms: 2-256 pipelined requests with 1-3 vector replies (Rread with payload, Rreaddir, Rgetattr, Rlerror), adversarial tags (0, 0xFFFE, dense, immediate re-use of a tag the instant its reply is parsed), 1-4 connections, through a writer that forwards every Write separately and yields between them; the reply-stream monitor parses the byte stream incrementally (frame boundaries, tag accounting, reply types, duplicates) and every request must be answered when the system is parked; gated batches released in every order (k <= 4); Tflush of own/idle/answered/in-flight tags and chains. (b) the rendezvous matrix of C07 with the head-of-line oracle: while A is parked in the backend, every B whose classified backend calls (for a walk: Walk on each directory passed and GetAttr on each file reached) the File contract does not order after A's - whatever the relation of the two paths: same path, parent, child, sibling, unrelated, same or other connection, with or without a rename / refused unlink / rebind behind the fids - and every unclassified B (StatFS, Lock) must complete; being observed parked inside p9 is the violation; 64 requests parked, a 65th must complete. Storms also mix in well-delimited frames the receiver rejects (unknown type, short body), whose error replies are produced on a different path. Flush order: mutual / forward / ring flushes whose frames leave in one write, thousands of rounds. Half-close: on a socket pair the client shuts down its sending side while 5 reads are parked; all 5 are still answered, in 4 release orders. Non-trivial: >= 2 requests in flight at once; distinct by (batch mix, release order) / matrix cell.",
+		Rule:    "(a) reply storms: 2-256 pipelined requests with 1-3 vector replies (Rread with payload, Rreaddir, Rgetattr, Rlerror), adversarial tags (0, 0xFFFE, dense, immediate re-use of a tag the instant its reply is parsed), 1-4 connections, through a writer that forwards every Write separately and yields between them; the reply-stream monitor parses the byte stream incrementally (frame boundaries, tag accounting, reply types, duplicates) and every request must be answered when the system is parked; gated batches released in every order (k <= 4); Tflush of own/idle/answered/in-flight tags and chains. (b) the rendezvous matrix of C07 with the head-of-line oracle: while A is parked in the backend, every B whose classified backend calls (for a walk: Walk on each directory passed and GetAttr on each file reached) the File contract does not order after A's - whatever the relation of the two paths: same path, parent, child, sibling, unrelated, same or other connection, with or without a rename / refused unlink / rebind behind the fids - and every unclassified B (StatFS, Lock) must complete; being observed parked inside p9 is the violation; 64 requests parked, a 65th must complete. Storms also mix in well-delimited frames the receiver rejects (unknown type, short body), whose error replies are produced on a different path. Flush order: mutual / forward / ring flushes whose frames leave in one write, thousands of rounds. Three parties: a read parked on a directory, a write-class request on it queued behind (7 kinds), a rename queued behind that (Trenameat / Trename), then the release - all three answered. Half-close: on a socket pair the client shuts down its sending side while 5 reads are parked; all 5 are still answered, in 4 release orders. Non-trivial: >= 2 requests in flight at once; distinct by (batch mix, release order) / matrix cell.",
 		Assume:  []string{"a request whose tag is already in flight is exempt (none is sent)", "writer-preferring RWMutex queues are only relevant while a global-class request is pending; no such request is pending in the non-blocking assertions"},
 		Shards:  shards(8, 16),
 		Timeout: timeout(8*time.Minute, 45*time.Minute),
